@@ -242,10 +242,57 @@ def scale_spec(n, shape):
     if shape == "wide":
         text = ("aＥ\u0300漢b cＤe\u0301" * (n // 10 + 1))[:n]
         return tuple((text[i : i + 5], _SCALE_PAL[(i // 5) % 3]) for i in range(0, n, 5))
+    if shape == "dense_marks":
+        # two combining marks on every base letter: three characters per column
+        text = ("e\u0301\u0300o\u0308\u0304" * (n // 6 + 1))[:n]
+        if n % 2:
+            return ((text, _SCALE_PAL[0]),)
+        return tuple((text[i : i + 50], _SCALE_PAL[(i // 50) % 3]) for i in range(0, n, 50))
+    if shape == "plain_stretches":
+        # formatted words separated by unformatted stretches (which render without any escape sequence)
+        out, pos, k = [], 0, 0
+        while pos < n:
+            piece = (LETTERS[k % 26] * 3)[: n - pos]
+            out.append((piece, _SCALE_PAL[k % 2]))
+            pos += len(piece)
+            if pos < n:
+                gap = (" = " if k % 3 else " + (x) ")[: n - pos]
+                out.append((gap, ()))
+                pos += len(gap)
+            k += 1
+        return tuple(out)
     raise ValueError(shape)
 
 
-SCALE_SHAPES = ("one", "runs7", "unit_runs", "words", "wide")
+def render_twin(spec):
+    """The same characters and formatting, the same terminal string, but different run boundaries: every unformatted run is cut in
+    two (at a position that varies from run to run) and an empty unformatted run is put in front.  FmtStr compares and hashes by its
+    terminal string, so a value and its twin are equal keys for any table keyed by the object."""
+    out = [("", ())]
+    k = 0
+    for t, a in spec:
+        if not a and len(t) >= 2:
+            cut = 1 + k % (len(t) - 1)
+            out.append((t[:cut], ()))
+            out.append((t[cut:], ()))
+            k += 1
+        else:
+            out.append((t, a))
+    return tuple(out)
+
+
+def twin_pairs():
+    """(spec, twin) pairs from 5 to 400 runs."""
+    out = []
+    for n in (12, 31, 64, 100, 131, 257, 700, 1400):
+        sp = scale_spec(n, "plain_stretches")
+        out.append((sp, render_twin(sp)))
+    sp = tuple(("w%d" % i, ()) if i % 2 else (" ", ()) for i in range(90))
+    out.append((sp, (("".join(t for t, _ in sp), ()),)))
+    return out
+
+
+SCALE_SHAPES = ("one", "runs7", "unit_runs", "words", "wide", "dense_marks")
 
 
 def scale_specs(thorough=False, shapes=SCALE_SHAPES, per_size=2):
